@@ -115,6 +115,33 @@ theorem pow_honoured_iff (h8 : Bytes) (d : Nat) (hl : h8.length = 8) (hw : h8.WF
   rw [pow_compare h8 _ (by simp [hl, leBytes_length]) hw (leBytes_wf _ _)]
   rw [leVal_leBytes, Nat.mod_eq_of_lt (by have := pow_target_lt d; simpa [two64] using this), pow_target d h1 h2]
 
+/-- T2″ `check_seq_history_free`: in a session of checks the answer to a query is `checkPoWNonce` of that query alone —
+    it does not depend on the queries asked before it (nor on those after it): the same (hash, nonce) asked first with
+    difficulty 1 and then with a high difficulty is judged at the high difficulty as if it had never been seen. -/
+theorem check_seq_history_free (pre post : List (Bytes × Nat)) (h8 : Bytes) (d : Nat) :
+    (checkSeq (pre ++ (h8, d) :: post))[pre.length]? = some (checkPoWNonce h8 d) := by
+  unfold checkSeq
+  simp
+
+theorem check_seq_length (qs : List (Bytes × Nat)) : (checkSeq qs).length = qs.length := by
+  unfold checkSeq
+  simp
+
+/-- … and therefore every answer of a session is the statement's comparison, for every d a block can carry. -/
+theorem check_seq_honoured_iff (pre post : List (Bytes × Nat)) (h8 : Bytes) (d : Nat)
+    (hl : h8.length = 8) (hw : h8.WF) (h1 : 2 ≤ d) (h2 : d < two64) :
+    (checkSeq (pre ++ (h8, d) :: post))[pre.length]? = some (decide (leVal h8 ≥ two64 - two64 / d)) := by
+  rw [check_seq_history_free, pow_honoured_iff h8 d hl hw h1 h2]
+
+/-- the same query asked twice in a session gets the same answer twice -/
+theorem check_seq_repeat (a b c : List (Bytes × Nat)) (h8 : Bytes) (d : Nat) :
+    (checkSeq (a ++ (h8, d) :: b ++ (h8, d) :: c))[a.length]? =
+    (checkSeq (a ++ (h8, d) :: b ++ (h8, d) :: c))[(a ++ (h8, d) :: b).length]? := by
+  have h1 := check_seq_history_free a (b ++ (h8, d) :: c) h8 d
+  have h2 := check_seq_history_free (a ++ (h8, d) :: b) c h8 d
+  simp only [List.append_assoc, List.cons_append] at h1 h2 ⊢
+  rw [h1, h2]
+
 /-- T3 `difficulty_plasma`: DifficultyToPlasma = min(⌊d/perPlasma⌋, cap) (with the regenerated constants),
     and is monotone. -/
 theorem difficulty_plasma_spec (d : Nat) :
